@@ -1,6 +1,12 @@
 /-
-Property theorems for BinPack (relational model: the EMS update of a packing step is ANY draw `d`
-in the relation `EmsRel`, see Env/BinPack/Model.lean).  Helper lemmas and proofs live in
+Property theorems for BinPack.  Two forms of the step exist (Env/BinPack/Model.lean):
+* `step₁ cfg rnd s e i` — the deterministic L1 step: the EMS update is computed by `updateEms`, the transliteration
+  of `_update_ems` / `_get_intersections_dict` / `_add_ems`.  Theorems with the suffix `₁` are about it and carry
+  NO hypothesis on the EMS update.
+* `step cfg rnd s e i d` — the relational step: the EMS update is ANY draw `d` in the relation `EmsRel`
+  (`validDraw`).  The theorems about it are kept (they are strictly more general: they hold for every
+  implementation of `_update_ems` that stays inside the relation) and `binpack_updateEms_validDraw` (C06) is the
+  bridge: the transliterated `_update_ems` is inside the relation for every state and every action.  Helper lemmas and proofs live in
 Env/BinPack/Lemmas.lean.  `rnd` is the float32 rounding used by `Space.volume()`; every theorem holds
 for an arbitrary `rnd`.
 
@@ -12,6 +18,12 @@ import JumanjiModel.Env.BinPack.Lemmas
 import JumanjiModel.Env.BinPack.Bounds
 import JumanjiModel.Env.BinPack.CoverLemmas
 import JumanjiModel.Env.BinPack.EpisodeLemmas
+import JumanjiModel.Env.BinPack.UpdateEms
+import JumanjiModel.Env.BinPack.Step1
+import JumanjiModel.Env.BinPack.ResetLemmas
+import JumanjiModel.Env.BinPack.Covered
+import JumanjiModel.Env.BinPack.SplitGen
+import JumanjiModel.Env.BinPack.GenState
 open Jm BinPack
 
 namespace Props.C01
@@ -48,6 +60,21 @@ theorem binpack_step_boundsInv (cfg : Cfg) (rnd : Rat → Rat) (dm : Dims) (s : 
     (h : BoundsInv dm s) (hd : stepValid s e i = true → validDrawAll s e i d) :
     BoundsInv dm (step cfg rnd s e i d).1 := BinPack.step_inv cfg rnd dm s e i d h hd
 
+/-- the same for the deterministic step `step₁` (EMS update = transliterated `_update_ems`): ANY action
+`(e, i) : Int × Int`, no hypothesis on the EMS update -/
+theorem binpack_step_obs_in_bounds₁ (cfg : Cfg) (rnd : Rat → Rat) (dm : Dims) (s : State) (e i : Int)
+    (h : BoundsInv dm s) (hw : WF s) :
+    Jm.OB.InBounds (obsBounds cfg dm) (obsLeaves (step₁ cfg rnd s e i).2.obs) :=
+  BinPack.step₁_obs_in_bounds cfg rnd dm s e i h hw
+/-- both hypotheses are invariants: established by `reset` (`binpack_reset_boundsInv`, `binpack_reset_WF`) and
+preserved by every `step₁` -/
+theorem binpack_step_boundsInv₁ (cfg : Cfg) (rnd : Rat → Rat) (dm : Dims) (s : State) (e i : Int)
+    (h : BoundsInv dm s) (hw : WF s) : BoundsInv dm (step₁ cfg rnd s e i).1 ∧ WF (step₁ cfg rnd s e i).1 :=
+  ⟨BinPack.step₁_inv cfg rnd dm s e i h hw, BinPack.step₁_WF cfg rnd s hw e i⟩
+theorem binpack_reset_WF (cfg : Cfg) (rnd : Rat → Rat) (dm : Dims) (maxEms n : Nat) (items : List Item)
+    (itemsMask : List Bool) (h : validReset dm n items itemsMask) : WF (reset cfg rnd dm maxEms items itemsMask).1 :=
+  BinPack.reset_WF cfg rnd dm maxEms items itemsMask (by rw [h.2.2.2.2.1, h.2.2.2.1])
+
 private def ex : State :=
   { container := ⟨0, 4, 0, 3, 0, 2⟩, ems := [⟨0, 4, 0, 3, 0, 2⟩, ⟨0, 0, 0, 0, 0, 0⟩], emsMask := [true, false]
     items := [⟨2, 2, 2⟩, ⟨4, 1, 1⟩], itemsMask := [true, true], itemsPlaced := [false, false]
@@ -59,6 +86,8 @@ cut above the item (z) is empty and not written, the x and y cuts are -/
 example : BoundsInv ⟨4, 3, 2⟩ ex ∧ stepValid ex 0 0 = true ∧
     validDrawAll ex 0 0 ⟨[⟨2, 4, 0, 3, 0, 2⟩, ⟨0, 4, 2, 3, 0, 2⟩], [true, true]⟩ ∧
     validDraw ex 0 0 ⟨[⟨2, 4, 0, 3, 0, 2⟩, ⟨0, 4, 2, 3, 0, 2⟩], [true, true]⟩ := by decide +kernel
+/-- … and that draw is exactly what the transliterated `_update_ems` computes -/
+example : WF ex ∧ updateEms ex 0 0 = ⟨[⟨2, 4, 0, 3, 0, 2⟩, ⟨0, 4, 2, 3, 0, 2⟩], [true, true]⟩ := by decide +kernel
 end Props.C01
 
 namespace Props.C04
@@ -77,6 +106,11 @@ theorem binpack_step_agrees (cfg : Cfg) (rnd : Rat → Rat) (s : State) (hw : WF
 /-- the caches of every state produced by `step` are fresh (hypothesis `Fresh` of the other theorems) -/
 theorem binpack_step_fresh (cfg : Cfg) (rnd : Rat → Rat) (s : State) (e i : Int) (d : EmsDraw) :
     Fresh cfg rnd (step cfg rnd s e i d).1 := BinPack.step_fresh cfg rnd s e i d
+
+/-- … and so are the caches of every state produced by `reset` (audit r1 entry 6) -/
+theorem binpack_reset_fresh (cfg : Cfg) (rnd : Rat → Rat) (dm : Dims) (maxEms : Nat) (items : List Item)
+    (itemsMask : List Bool) : Fresh cfg rnd (reset cfg rnd dm maxEms items itemsMask).1 :=
+  BinPack.reset_fresh cfg rnd dm maxEms items itemsMask
 
 private def ex : State :=
   { container := ⟨0, 4, 0, 4, 0, 4⟩, ems := [⟨0, 4, 0, 4, 0, 4⟩, ⟨0, 0, 0, 0, 0, 0⟩], emsMask := [true, false]
@@ -108,6 +142,21 @@ theorem binpack_step_feasible (cfg : Cfg) (rnd : Rat → Rat) (s : State) (hF : 
     (hd : validDraw s e i d) : Feasible (step cfg rnd s e i d).1 :=
   BinPack.step_feasible cfg rnd s hF hf e i hs d hl hd
 
+/-- AUDIT r1 ENTRY 2: the L1 transliteration `updateEms` of `_update_ems` / `_get_intersections_dict` / `_add_ems`
+(deleting intersected EMSs, the six families of hyperplane cuts, the emptiness / inclusion filtering, the scan that
+writes each surviving cut to `argmin(ems_mask)`, overwriting slot 0 when the buffer is full) stays inside both
+relations of the R-model — for EVERY state with consistent array shapes and EVERY action `(e, i) : Int × Int`
+(legal or not; feasibility of the state is not needed) -/
+theorem binpack_updateEms_validDraw (s : State) (hw : WF s) (e i : Int) :
+    validDraw s e i (updateEms s e i) ∧ validDrawAll s e i (updateEms s e i) :=
+  BinPack.updateEms_validDraw s hw e i
+
+/-- hypothesis-free form of `binpack_step_feasible`: a legal action of the deterministic step keeps the state
+feasible -/
+theorem binpack_step_feasible₁ (cfg : Cfg) (rnd : Rat → Rat) (s : State) (hF : Feasible s)
+    (hf : Fresh cfg rnd s) (e i : Nat) (hs : InSpec cfg s e i) (hl : legal cfg rnd s e i) :
+    Feasible (step₁ cfg rnd s e i).1 := BinPack.step₁_feasible cfg rnd s hF hf e i hs hl
+
 /-- the state-level core of it: packing an item that fits into the corner of an active EMS -/
 theorem binpack_pack_feasible (s : State) (k i : Nat) (d : EmsDraw) (hf : Feasible s)
     (hk : k < s.ems.length) (hc : canPack s k i)
@@ -124,6 +173,29 @@ theorem binpack_feasible_along (cfg : Cfg) (rnd : Rat → Rat) (s₀ : State) (h
     Feasible s ∧ ItemsFeasible s :=
   have h := (BinPack.run_invariant cfg rnd s₀ h0 hf0 n s hr).1
   ⟨h, h.2.1, h.2.2.1⟩
+
+/-- `reset` (container with positive sides, item mask as long as the item arrays) produces a `ResetShape` state
+(audit r1 entry 6; `Fresh` is `Props.C04.binpack_reset_fresh`) -/
+theorem binpack_reset_shape (cfg : Cfg) (rnd : Rat → Rat) (dm : Dims) (maxEms : Nat) (items : List Item)
+    (itemsMask : List Bool) (hx : 0 < dm.cx) (hy : 0 < dm.cy) (hz : 0 < dm.cz)
+    (hm : itemsMask.length = items.length) : ResetShape (reset cfg rnd dm maxEms items itemsMask).1 :=
+  BinPack.reset_shape cfg rnd dm maxEms items itemsMask hx hy hz hm
+
+/-- hypothesis-free form of `binpack_feasible_along`: along a whole episode of legal play of the deterministic
+step (`Run₁`: `n` legal in-spec actions of `step₁`) every state is feasible -/
+theorem binpack_feasible_along₁ (cfg : Cfg) (rnd : Rat → Rat) (s₀ : State) (h0 : ResetShape s₀)
+    (hf0 : Fresh cfg rnd s₀) (n : Nat) (s : State) (hr : Run₁ cfg rnd s₀ n s) :
+    Feasible s ∧ ItemsFeasible s :=
+  have h := (BinPack.run_invariant cfg rnd s₀ h0 hf0 n s (BinPack.run₁_run cfg rnd s₀ h0 hf0 n s hr)).1
+  ⟨h, h.2.1, h.2.2.1⟩
+
+/-- THE WHOLE CHAIN FROM `reset`: any generator output (container with positive sides, `n` item slots), any number
+of legal in-spec actions of the deterministic step: items inside the container and pairwise non-overlapping -/
+theorem binpack_feasible_from_reset (cfg : Cfg) (rnd : Rat → Rat) (dm : Dims) (maxEms n : Nat) (items : List Item)
+    (itemsMask : List Bool) (h : validReset dm n items itemsMask) (k : Nat) (s : State)
+    (hr : Run₁ cfg rnd (reset cfg rnd dm maxEms items itemsMask).1 k s) : Feasible s ∧ ItemsFeasible s :=
+  binpack_feasible_along₁ cfg rnd _ (BinPack.reset_shape_of_valid cfg rnd dm maxEms n items itemsMask h)
+    (BinPack.reset_fresh cfg rnd dm maxEms items itemsMask) k s hr
 
 /-- "nothing more can be packed" (how such an episode ends) is what the executable check of the
 `solution` key of the driver decides -/
@@ -182,6 +254,39 @@ theorem binpack_episode_returns (cfg : Cfg) (rnd : Rat → Rat) (s₀ : State) (
     Run cfg rnd s₀ as.length (play cfg rnd s₀ as).1 ∧ Feasible (play cfg rnd s₀ as).1 ∧
     Complete cfg rnd (play cfg rnd s₀ as).1 := BinPack.episode_returns cfg rnd s₀ h0 hf0 as hlp he
 
+/-- hypothesis-free form of `binpack_episode_returns`: the episode is a list of actions `(e, i)` played with the
+deterministic step (`play₁`); `LegalPlay₁` = every action in the spec and legal when its turn comes; `EndsAtLast₁` =
+the last timestep is LAST and no earlier one -/
+theorem binpack_episode_returns₁ (cfg : Cfg) (rnd : Rat → Rat) (s₀ : State) (h0 : ResetShape s₀)
+    (hf0 : Fresh cfg rnd s₀) (as : List Act₁) (hlp : LegalPlay₁ cfg rnd s₀ as) (he : EndsAtLast₁ cfg rnd s₀ as) :
+    (play₁ (withDense cfg true) rnd s₀ as).1 = (play₁ cfg rnd s₀ as).1 ∧
+    (play₁ (withDense cfg false) rnd s₀ as).1 = (play₁ cfg rnd s₀ as).1 ∧
+    (play₁ (withDense cfg true) rnd s₀ as).2 = utilisation (play₁ cfg rnd s₀ as).1 ∧
+    (play₁ (withDense cfg false) rnd s₀ as).2 = utilisation (play₁ cfg rnd s₀ as).1 ∧
+    Run₁ cfg rnd s₀ as.length (play₁ cfg rnd s₀ as).1 ∧ Feasible (play₁ cfg rnd s₀ as).1 ∧
+    Complete cfg rnd (play₁ cfg rnd s₀ as).1 := BinPack.episode_returns₁ cfg rnd s₀ h0 hf0 as hlp he
+
+/-! #### an objective that does not share code with the reward (audit r1 entry 9)
+`coveredFraction s` counts, unit cell by unit cell, the cells of the container that lie in a placed item and divides by
+the number of cells of the container (`coveredCells`, `Space.cells`, `coverCount`); `utilisation` (what L1 `reward`
+calls) is Σ placed item volumes / container volume. -/
+
+/-- for a feasible packing whose placed items have non-negative sides in a proper container, the two agree -/
+theorem binpack_utilisation_eq_covered (s : State) (hF : Feasible s) (hnn : PlacedNonneg s)
+    (hc : s.container.Proper) : utilisation s = coveredFraction s :=
+  BinPack.utilisation_eq_covered s ⟨hF.2.1, hF.2.2.1⟩ hnn hc
+
+/-- whole episodes: legal play of the deterministic step from a reset state whose present items have positive
+sides (certificate `items_positive` of C10): both returns are the covered fraction of the final state -/
+theorem binpack_episode_returns_covered (cfg : Cfg) (rnd : Rat → Rat) (s₀ : State) (h0 : ResetShape s₀)
+    (hf0 : Fresh cfg rnd s₀) (hpos : ItemsPositive s₀) (as : List Act₁) (hlp : LegalPlay₁ cfg rnd s₀ as)
+    (he : EndsAtLast₁ cfg rnd s₀ as) :
+    (play₁ (withDense cfg true) rnd s₀ as).2 = coveredFraction (play₁ cfg rnd s₀ as).1 ∧
+    (play₁ (withDense cfg false) rnd s₀ as).2 = coveredFraction (play₁ cfg rnd s₀ as).1 := by
+  obtain ⟨_, _, h3, h4, h5, _⟩ := BinPack.episode_returns₁ cfg rnd s₀ h0 hf0 as hlp he
+  have := BinPack.run_utilisation_eq_covered cfg rnd s₀ h0 hf0 hpos _ _ (BinPack.run₁_run cfg rnd s₀ h0 hf0 _ _ h5)
+  rw [h3, h4, this]; exact ⟨rfl, rfl⟩
+
 /-- `LegalPlay` lists and the `Run` relation describe the same episodes -/
 theorem binpack_run_iff_play (cfg : Cfg) (rnd : Rat → Rat) (s₀ : State) (n : Nat) (s : State) :
     Run cfg rnd s₀ n s ↔ ∃ as : List Act, as.length = n ∧ LegalPlay cfg rnd s₀ as ∧ (play cfg rnd s₀ as).1 = s :=
@@ -202,7 +307,40 @@ example : LegalPlay ⟨2, false, true⟩ id exS exAs := by simp only [LegalPlay,
 example : EndsAtLast ⟨2, false, true⟩ id exS exAs := by simp only [EndsAtLast, exAs]; decide +kernel
 example : (play (withDense ⟨2, false, true⟩ true) id exS exAs).2 = 1 ∧
     (play (withDense ⟨2, false, true⟩ false) id exS exAs).2 = 1 := by decide +kernel
+/-- the same episode under the deterministic step, started from `reset` itself -/
+private def exR : State := (reset ⟨2, false, true⟩ id ⟨2, 2, 2⟩ 2 [⟨2, 2, 1⟩, ⟨2, 2, 1⟩] [true, true]).1
+example : exR = exS := by decide +kernel
+example : LegalPlay₁ ⟨2, false, true⟩ id exR [(0, 0), (0, 1)] := by simp only [LegalPlay₁]; decide +kernel
+example : EndsAtLast₁ ⟨2, false, true⟩ id exR [(0, 0), (0, 1)] := by simp only [EndsAtLast₁]; decide +kernel
+example : ItemsPositive exR ∧ coveredCells (play₁ ⟨2, false, true⟩ id exR [(0, 0)]).1 = 4 ∧
+    coveredFraction (play₁ ⟨2, false, true⟩ id exR [(0, 0)]).1 = 1 / 2 := by decide +kernel
+example : (play₁ (withDense ⟨2, false, true⟩ true) id exR [(0, 0), (0, 1)]).2 = 1 ∧
+    (play₁ (withDense ⟨2, false, true⟩ false) id exR [(0, 0), (0, 1)]).2 = 1 := by decide +kernel
 end Props.C08
+
+namespace Props.C09
+/-- the deterministic L1 step against the rules, legal case: the successor state is the state with item `i` placed
+in the corner of the EMS shown in slot `e` (`packed`: only `items_location[i]`, `items_placed[i]` and the EMS buffer
+change; the buffer becomes `updateEms s e i`), with the two caches recomputed (`makeObs`); the step is LAST exactly
+when nothing more can be packed (`completeB`, `Props.C06.binpack_complete_iff`); the illegal case is
+`Props.C05.binpack_illegal_terminates` (state unchanged, LAST).  The sweep of this property compares `step₁` with the
+implementation on whole transitions, every state field slot by slot -/
+theorem binpack_step_rules (cfg : Cfg) (rnd : Rat → Rat) (s : State) (hw : WF s) (hf : Fresh cfg rnd s)
+    (e i : Nat) (hs : InSpec cfg s e i) (hl : legal cfg rnd s e i) :
+    (step₁ cfg rnd s e i).1 = (makeObs cfg rnd (packed s (shownEms rnd s e) i (updateEms s e i))).1 ∧
+    (step₁ cfg rnd s e i).2.obs = observe cfg rnd (step₁ cfg rnd s e i).1 ∧
+    (step₁ cfg rnd s e i).2.stepType =
+      (if completeB cfg rnd (step₁ cfg rnd s e i).1 = true then StepType.last else StepType.mid) := by
+  refine ⟨BinPack.legal_step_fst cfg rnd s hw hf e i hs _ hl, BinPack.obs_faithful₁ cfg rnd s hw e i, ?_⟩
+  have hv := (BinPack.stepValid_iff_legal cfg rnd s hw hf e i hs).mpr hl
+  have hw' := BinPack.step₁_WF cfg rnd s hw e i
+  have hf' := BinPack.step₁_fresh cfg rnd s e i
+  unfold completeB
+  rw [← BinPack.maskOf_eq_legalMask cfg rnd _ hw', ← hf'.1]
+  unfold step₁
+  rw [BinPack.step_stepType, hv]
+  cases hany : ((step cfg rnd s e i (updateEms s e i)).1.actionMask.any fun r => r.any id) <;> simp
+end Props.C09
 
 namespace Props.C11
 /-- every non-terminal step packs exactly one more item -/
@@ -215,6 +353,37 @@ theorem binpack_progress (cfg : Cfg) (rnd : Rat → Rat) (s : State) (hw : WF s)
 theorem binpack_horizon (cfg : Cfg) (rnd : Rat → Rat) (s₀ : State) (h0 : ResetShape s₀)
     (hf0 : Fresh cfg rnd s₀) (n : Nat) (s : State) (hr : Run cfg rnd s₀ n s) : n ≤ s₀.items.length :=
   BinPack.horizon cfg rnd s₀ h0 hf0 n s hr
+
+/-- hypothesis-free form: legal play of the deterministic step -/
+theorem binpack_horizon₁ (cfg : Cfg) (rnd : Rat → Rat) (s₀ : State) (h0 : ResetShape s₀)
+    (hf0 : Fresh cfg rnd s₀) (n : Nat) (s : State) (hr : Run₁ cfg rnd s₀ n s) : n ≤ s₀.items.length :=
+  BinPack.horizon cfg rnd s₀ h0 hf0 n s (BinPack.run₁_run cfg rnd s₀ h0 hf0 n s hr)
+
+/-- AUDIT r1 ENTRY 16: play ANY in-spec actions (legal or illegal) from a reset state with the deterministic step.
+If the action list is at least `max 1 (number of item slots)` long, a LAST timestep IS emitted, and the first one
+is timestep number `t` with `1 ≤ t ≤ max 1 (number of item slots)` (`firstLast₁` = number of the first LAST
+timestep).  From `binpack_progress` (a non-LAST step packs one more item and leaves a legal action, hence an
+unplaced item) and `binpack_illegal_terminates` -/
+theorem binpack_first_last_le (cfg : Cfg) (rnd : Rat → Rat) (s₀ : State) (h0 : ResetShape s₀)
+    (hf0 : Fresh cfg rnd s₀) (as : List Act₁) (hp : InSpecPlay₁ cfg rnd s₀ as)
+    (hlen : max 1 s₀.items.length ≤ as.length) :
+    ∃ t, firstLast₁ cfg rnd s₀ as = some t ∧ 1 ≤ t ∧ t ≤ max 1 s₀.items.length :=
+  BinPack.first_last_le cfg rnd s₀ h0 hf0 as hp hlen
+
+/-- sharp form: the bound counted in PRESENT items (`jnp.sum(items_mask)`), padding slots excluded -/
+theorem binpack_first_last_le_present (cfg : Cfg) (rnd : Rat → Rat) (s₀ : State) (h0 : ResetShape s₀)
+    (hf0 : Fresh cfg rnd s₀) (as : List Act₁) (hp : InSpecPlay₁ cfg rnd s₀ as)
+    (hlen : max 1 (Jx.countTrue s₀.itemsMask) ≤ as.length) :
+    ∃ t, firstLast₁ cfg rnd s₀ as = some t ∧ 1 ≤ t ∧ t ≤ max 1 (Jx.countTrue s₀.itemsMask) :=
+  BinPack.first_last_le_present cfg rnd s₀ h0 hf0 as hp hlen
+
+/-- two 2×2×1 items into a 2×2×2 container: the play `(0,0), (0,1)` is in the spec and its first LAST is timestep 2;
+the play `(1,0), (0,0)` (slot 1 shows an inactive EMS: illegal) ends at timestep 1 -/
+private def exR : State := (reset ⟨2, false, true⟩ id ⟨2, 2, 2⟩ 2 [⟨2, 2, 1⟩, ⟨2, 2, 1⟩] [true, true]).1
+example : ResetShape exR ∧ Fresh ⟨2, false, true⟩ id exR := by decide +kernel
+example : InSpecPlay₁ ⟨2, false, true⟩ id exR [(0, 0), (0, 1)] := by simp only [InSpecPlay₁]; decide +kernel
+example : firstLast₁ ⟨2, false, true⟩ id exR [(0, 0), (0, 1)] = some 2 ∧
+    firstLast₁ ⟨2, false, true⟩ id exR [(1, 0), (0, 0)] = some 1 := by decide +kernel
 end Props.C11
 
 namespace Props.C12
@@ -224,6 +393,17 @@ theorem binpack_obs_faithful (cfg : Cfg) (rnd : Rat → Rat) (s : State) (hw : W
     (d : EmsDraw) (hd : d.mask.length = d.ems.length) :
     (step cfg rnd s e i d).2.obs = observe cfg rnd (step cfg rnd s e i d).1 :=
   BinPack.obs_faithful cfg rnd s hw e i d hd
+
+/-- hypothesis-free form for the deterministic step: ANY action `(e, i) : Int × Int` -/
+theorem binpack_obs_faithful₁ (cfg : Cfg) (rnd : Rat → Rat) (s : State) (hw : WF s) (e i : Int) :
+    (step₁ cfg rnd s e i).2.obs = observe cfg rnd (step₁ cfg rnd s e i).1 :=
+  BinPack.obs_faithful₁ cfg rnd s hw e i
+
+/-- reset form (audit r1, gaps): the first observation is the documented function of the reset state -/
+theorem binpack_reset_obs_faithful (cfg : Cfg) (rnd : Rat → Rat) (dm : Dims) (maxEms : Nat) (items : List Item)
+    (itemsMask : List Bool) (hm : itemsMask.length = items.length) :
+    (reset cfg rnd dm maxEms items itemsMask).2.obs = observe cfg rnd (reset cfg rnd dm maxEms items itemsMask).1 :=
+  BinPack.reset_obs_faithful cfg rnd dm maxEms items itemsMask hm
 
 /-- the order in which EMSs are shown enumerates every EMS slot exactly once, by decreasing
 (float) volume with inactive slots counted as 0, equal volumes by increasing slot number (stable
@@ -282,6 +462,96 @@ theorem binpack_split_drop_empty (c : Space) (l₁ l₂ : List Space) (b : Space
 
 theorem binpack_split_perm (c : Space) (l l' : List Space) (h : Tiles c l) (hp : l.Perm l') : Tiles c l' :=
   BinPack.tiles_perm c l l' h hp
+
+/-! #### the transliterated generator (audit r1 entry 11)
+`splitGenerate g rnd c draws` (Model.lean) = `RandomGenerator._split_container_into_items_spaces`: the `while_loop`
+with one `SplitDraw` (axis, space, mode, cut position / number of pieces) per iteration, the cut positions computed by
+the code's float32 expressions in the code's order of evaluation (`rnd` = float32 rounding), empty pieces dropped.
+The state is the list of active spaces (slot bookkeeping abstracted, `binpack_split_perm`).
+`RndOK rnd B`: `rnd` is monotone and exact on the integers `0 … B`;  `GenBound g c B`: `1 ≤ B`,
+`split_num_same_items ≤ B` and `max 1 split_num_same_items · side ≤ B` for the three sides of the container. -/
+
+/-- for every container with non-negative sides, every `0 ≤ split_eps ≤ 1`, every list of admissible draws
+(`ValidSplitDraws`: what `jax.random.choice / randint` can return) the generated item spaces tile the container -/
+theorem binpack_splitGenerate_tiles (g : GenCfg) (rnd : Rat → Rat) (B : Int) (hr : RndOK rnd B) (c : Space)
+    (hc : c.Proper) (hB : GenBound g c B) (he0 : 0 ≤ g.eps) (he1 : g.eps ≤ 1) (ds : List SplitDraw)
+    (hv : ValidSplitDraws g rnd [c] ds) : Tiles c (splitGenerate g rnd c ds) :=
+  BinPack.splitGenerate_tiles g rnd B hr c hc hB he0 he1 ds hv
+
+/-- float32, the arithmetic of the real code: exact as long as `max 1 split_num_same_items · side < 2^24` -/
+theorem binpack_splitGenerate_tiles_f32 (g : GenCfg) (c : Space) (hc : c.Proper) (hB : GenBound g c 16777215)
+    (he0 : 0 ≤ g.eps) (he1 : g.eps ≤ 1) (ds : List SplitDraw) (hv : ValidSplitDraws g Jx.roundF32 [c] ds) :
+    Tiles c (splitGenerate g Jx.roundF32 c ds) :=
+  BinPack.splitGenerate_tiles g Jx.roundF32 16777215 BinPack.rndOK_f32 c hc hB he0 he1 ds hv
+
+/-- exact arithmetic (`rnd = id`): no size restriction -/
+theorem binpack_splitGenerate_tiles_exact (g : GenCfg) (c : Space) (hc : c.Proper) (he0 : 0 ≤ g.eps) (he1 : g.eps ≤ 1)
+    (ds : List SplitDraw) (hv : ValidSplitDraws g id [c] ds) : Tiles c (splitGenerate g id c ds) := by
+  let B : Int := 1 + g.splitNum + (max 1 g.splitNum : Nat) * ((c.x2 - c.x1) + (c.y2 - c.y1) + (c.z2 - c.z1))
+  have hx : 0 ≤ c.x2 - c.x1 := by have := hc.1; omega
+  have hy : 0 ≤ c.y2 - c.y1 := by have := hc.2.1; omega
+  have hz : 0 ≤ c.z2 - c.z1 := by have := hc.2.2; omega
+  have hm : (0 : Int) ≤ ((max 1 g.splitNum : Nat) : Int) := by omega
+  have hmx := Int.mul_nonneg hm hx
+  have hmy := Int.mul_nonneg hm hy
+  have hmz := Int.mul_nonneg hm hz
+  refine BinPack.splitGenerate_tiles g id B (BinPack.rndOK_id B) c hc ⟨?_, ?_, fun ax => ?_⟩ he0 he1 ds hv
+  · show 1 ≤ 1 + (g.splitNum : Int) + _ * _
+    rw [Int.mul_add, Int.mul_add]; omega
+  · show (g.splitNum : Int) ≤ 1 + (g.splitNum : Int) + _ * _
+    rw [Int.mul_add, Int.mul_add]; omega
+  · show _ ≤ 1 + (g.splitNum : Int) + _ * _
+    rw [Int.mul_add, Int.mul_add]
+    rcases ax with _ | _ | _ <;> simp only [axHi, axLo] <;> omega
+
+/-- every generated item space is non-empty (certificate `items_positive`) -/
+theorem binpack_splitGenerate_nonempty (g : GenCfg) (rnd : Rat → Rat) (c : Space) (hc : c.isEmpty = false)
+    (ds : List SplitDraw) : ∀ b ∈ splitGenerate g rnd c ds, b.isEmpty = false :=
+  BinPack.splitLoop_nonempty g rnd ds [c] (by intro b hb; simp at hb; subst hb; exact hc)
+
+/-- `generate_solution` TIED TO THE RESET INSTANCE (audit r1, gaps).  `solvedState c maxEms bs` is the state
+`_generate_solved_instance` builds from the generated spaces (each an item placed at its own corner),
+`unpackItems` is `Generator._unpack_items`, i.e. `generator(key) = unpackItems (generate_solution key)`.  For every
+admissible draw list, in float32: the solution is a perfect packing (certificates `solution_perfect_packing`,
+`solution_feasible` of the driver), feasible and complete; the reset state is the same instance (container, items, item
+mask — certificate `solution_same_instance`), has `ResetShape` (hence is feasible, `binpack_reset_feasible`) and
+positive items (`items_positive`) -/
+theorem binpack_generated_solution (g : GenCfg) (c : Space) (maxEms : Nat) (cfg : Cfg) (rnd : Rat → Rat)
+    (hc1 : c.x1 = 0 ∧ c.y1 = 0 ∧ c.z1 = 0) (hc2 : 0 < c.x2 ∧ 0 < c.y2 ∧ 0 < c.z2) (hB : GenBound g c 16777215)
+    (he0 : 0 ≤ g.eps) (he1 : g.eps ≤ 1) (ds : List SplitDraw) (hv : ValidSplitDraws g Jx.roundF32 [c] ds) :
+    let sol := solvedState c maxEms (splitGenerate g Jx.roundF32 c ds)
+    let s₀ := unpackItems sol
+    PerfectPacking sol ∧ PlacedNonneg sol ∧ Feasible sol ∧ Complete cfg rnd sol ∧
+    s₀.container = sol.container ∧ s₀.items = sol.items ∧ s₀.itemsMask = sol.itemsMask ∧
+    ResetShape s₀ ∧ ItemsPositive s₀ ∧ presentVolume s₀ = s₀.container.volume := by
+  intro sol s₀
+  have hcp : c.Proper := by unfold Space.Proper; omega
+  have hce : c.isEmpty = false := by
+    simp only [Space.isEmpty, Bool.or_eq_false_iff, decide_eq_false_iff_not]; omega
+  have ht := binpack_splitGenerate_tiles_f32 g c hcp hB he0 he1 ds hv
+  obtain ⟨h1, h2, h3, h4⟩ := BinPack.solved_perfect c maxEms _ ht cfg rnd
+  obtain ⟨h5, h6, h7, h8⟩ := BinPack.unpack_reset c maxEms (splitGenerate g Jx.roundF32 c ds) hc1 hc2
+  refine ⟨h1, h2, h3, h4, h5, h6, h7, h8,
+    BinPack.unpack_itemsPositive c maxEms _ (binpack_splitGenerate_nonempty g Jx.roundF32 c hce ds), ?_⟩
+  -- the volumes of the present items add up: same items and mask as the solution, where placed = mask
+  have : presentVolume s₀ = placedVolume sol := by
+    unfold presentVolume placedVolume
+    rw [h6, h7]; rfl
+  rw [this, h5]; exact h1.2.2.2
+
+/-- the hypotheses are satisfiable, in float32: the 13×7×10 container of the sweep configuration, `max_num_items = 12`,
+`split_num_same_items = 5`, `split_eps = 0.3`; a 3-way split of the x axis (13/3 in float32: pieces 4, 4, 5), then a
+binary cut of the second piece along z, then a 5-way split of the last piece along y (7/5: pieces 1, 1, 2, 1, 2) -/
+private def exG : GenCfg := ⟨12, 5, 3 / 10⟩
+private def exD : List SplitDraw := [⟨0, 0, false, 0, 3⟩, ⟨2, 1, true, 4, 0⟩, ⟨1, 3, false, 0, 5⟩]
+example : GenBound exG ⟨0, 13, 0, 7, 0, 10⟩ 16777215 := by
+  refine ⟨by decide, by decide, fun ax => ?_⟩
+  rcases ax with _ | _ | _ <;> simp [axHi, axLo, exG] <;> decide
+example : ValidSplitDraws exG Jx.roundF32 [⟨0, 13, 0, 7, 0, 10⟩] exD := by
+  simp only [ValidSplitDraws, exD]; decide +kernel
+example : splitGenerate exG Jx.roundF32 ⟨0, 13, 0, 7, 0, 10⟩ exD =
+    [⟨0, 4, 0, 7, 0, 10⟩, ⟨4, 8, 0, 7, 0, 4⟩, ⟨4, 8, 0, 7, 4, 10⟩, ⟨8, 13, 0, 1, 0, 10⟩, ⟨8, 13, 1, 2, 0, 10⟩,
+     ⟨8, 13, 2, 4, 0, 10⟩, ⟨8, 13, 4, 5, 0, 10⟩, ⟨8, 13, 5, 7, 0, 10⟩] := by decide +kernel
 
 /-- a generated reset state is a feasible starting point of an episode -/
 theorem binpack_reset_feasible (s : State) (h : ResetShape s) : Feasible s := BinPack.reset_feasible s h
